@@ -60,3 +60,27 @@ add("C17", True, "E1-enumerator", "exhaustive enumeration of all ordered pairs o
 add("C18", True, "E1-enumerator", "complete enumeration of the product named by the property (edge kind x vertex count x endpoint pose types x measurement type x offset type x information shape x id present/absent x list order) vs documentation truth table",
     "The whole stated space (296k constructions) is enumerated through the real Graph constructor; acceptance must equal the truth table and accepted edges must be bound to the named vertex objects.",
     "python not run with -O; landmark offset None not judged", "DESIGN.md 4 C18")
+
+# sentences added after the fourth and fifth mutation waves (what the alphabets / histories contain beyond the text above)
+EXTRA = {
+    "C01": "Landmarks exactly at the sensor position, pure-yaw SE(3) poses, Jacobians unchanged under partial / tiny / integer information and under fixed flags, returned matrices held while other edges are evaluated.",
+    "C02": "Integer, float32, indefinite and negative-definite information; measurements / offsets that are instances of a pose subclass; graph sums over 1..256 edges and over edges with non-positive information; two landmarks seen from one pose through different offsets.",
+    "C03": "Graphs of 4..33 poses in several topologies (star, two anchored components, hub, long chains), positional optimize() calls, and k in {2,3,5,8} iterations inside ONE call against k reference steps.",
+    "C04": "Exact duplicate edges, a shared initial-guess array, information scales 1e11 apart between edges, an earlier run with fix_first_pose=True on a caller-fixed first vertex.",
+    "C05": "Further variants: a second sensor offset per landmark, a displaced second component anchored by the caller, a vertex list starting with a landmark, information matrices replaced between two runs.",
+    "C06": "Fixed SE(3) vertices with slightly non-unit quaternions are included (fixed-pose and flag oracles).",
+    "C07": "Graphs with zero landmarks, shared measurement objects, landmarks 300-600 units away and landmark observations that agree bit for bit with the initial guess are included.",
+    "C08": "Edge splitting, quaternion negation and whole-turn shifts are also applied through the .g2o loader.",
+    "C09": "200-step chains (x (+) b, b (+) x, x [+] delta) are followed against the reference at every step; float32 / float16 / integer operand and increment arrays; results held while other operations run; identity() independence.",
+    "C10": "Axis-aligned operands, pure-yaw SE(3) poses, keyword calls with the documented parameter names, returned matrices held while the methods run for other poses.",
+    "C11": "The alphabet has 25 operations incl. the in-place spellings; every dense angle is also loaded through a VERTEX_SE2 line; one optimize(tol=0, max_iter=k) call for every k in 1..50; inverse evaluated before an in-place normalise / rewrite.",
+    "C13": "Also: an unrelated file with the same parameter ids imported between import and comparison, graphs without parameters written over an existing file, the same id for a 2-D and a 3-D parameter, unregistered SE(3) offsets (must be refused or reproduced).",
+    "C14": "Junk lines that quote complete vocabulary lines, a registered custom type that needs the file's offset parameters, digit-group underscores, every zero / non-zero pattern of the information entries, exact duplicate lines.",
+    "C15": "Query alphabet also holds returned values while the same queries run for other edges / poses, writes into to_array / to_compact results and into the results of operators with a neutral operand.",
+    "C16": "Numerical Jacobians are held while another edge of the same type is differentiated, requested again after the edge was linearised and a vertex moved; optimised graphs also contain heavy 3-vertex constraints.",
+    "C17": "The pool contains a 9-pose trajectory with one pose near the origin and the others kilometres away, ids of 2e5 / 5e6 / 2^40 differing by 1, array vs pose estimates with equal numbers.",
+    "C18": "The product is repeated with all endpoints fixed, ids as tuple / numpy integers, all-zero / all-ones information; plus every vertex-list order of 3..5-vertex graphs, two edges naming the same vertices, every line order of a 5-line .g2o file with and without an unknown id.",
+}
+for _t in T:
+    if _t["id"] in EXTRA:
+        _t["text"] = _t["text"] + " " + EXTRA[_t["id"]]
